@@ -4,10 +4,10 @@ import itertools
 
 from props import confgen as G
 
-RULE = ('every prefix of seed configuration files; structure-aware mutants (lines deleted/duplicated/swapped, braces, quotes, '
+RULE = ('the C15 crash corpus; every prefix of seed configuration files; structure-aware mutants (lines deleted/duplicated/swapped, braces, quotes, '
         'spaces, # removed or doubled, values replaced by boundary and huge numbers with each unit, multi-byte characters '
         'inserted at every position of seed lines); bounded-exhaustive short lines over the alphabet {a,1,K,space,quote,{,},#,é} '
-        'inside a server section (quick len<=4, thorough len<=5); random valid-UTF-8 strings; nesting depth 10..100000 for '
+        'inside a server section, as a size value, as a host / route name and as an include path (quick len<=4, thorough len<=5; names len<=3); random valid-UTF-8 strings; nesting depth 10..100000 for '
         'sections, routes and hosts; include chains and cycles (self, two files, through a section) with missing / directory / '
         'invalid-UTF-8 targets; outcome class (ok / syntax error / validation error) compared with the model, PANIC / DIED / '
         'TIMEOUT = violation; peak allocation <= 64*|input files| + 256 KiB per include level')
@@ -74,6 +74,10 @@ def run(ctx):
     elif ctx.replay:
         return
     else:
+        # the crash corpus of C15 (former panics / stack overflows) runs first
+        from props import c15 as C15
+        for c in C15.corpus_cases():
+            inputs.append(('corpus', {'main': c['main'], 'files': c['files'], 'note': c['name']}))
         seeds = []
         for k in range(10 if thorough else 5):
             conf = G.gen_conf(rng, small=True)
@@ -115,8 +119,13 @@ def run(ctx):
                 if thorough or k < 4 or rng.random() < 0.35:
                     inputs.append(('exh', {'main': 'server {\n' + ''.join(tup) + '\n}\n', 'files': {}}))
                 if k <= 3:
-                    inputs.append(('exh', {'main': 'server {\nsize ' + ''.join(tup) + '\n}\n', 'files': {}}))
-                    inputs.append(('exh', {'main': ''.join(tup), 'files': {}}))
+                    t = ''.join(tup)
+                    inputs.append(('exh', {'main': 'server {\nsize ' + t + '\n}\n', 'files': {}}))
+                    inputs.append(('exh', {'main': t, 'files': {}}))
+                    # section headers: the name is sliced / unquoted
+                    inputs.append(('exh', {'main': 'server {\nhost ' + t + ' {\n}\n}\n', 'files': {}}))
+                    inputs.append(('exh', {'main': 'server {\nroute ' + t + '{\n}\n}\n', 'files': {}}))
+                    inputs.append(('exh', {'main': 'server {\ninclude ' + t + '\n}\n', 'files': {'a': 'k 1', '1': 'k 2', 'é': ''}}))
         # random valid UTF-8
         pool = 'ab1 \n\t{}"#KMG-+.é€\U0001F600 \r'
         for _ in range(4000 if thorough else 500):
